@@ -219,7 +219,7 @@ func drawShape(t *rapid.T, o validOpts) (rings [][]P, q int64, shape string) {
 	shape = rapid.SampledFrom(kinds).Draw(t, "shape")
 	maxV := o.maxVerts
 	if maxV == 0 {
-		maxV = 40
+		maxV = report.Scale(40, 100)
 	}
 	smallHole := func(t *rapid.T, s int64) []P {
 		if rapid.Bool().Draw(t, "holeStar") {
